@@ -341,6 +341,13 @@ pub fn run_c03(out: &mut Out, seed: u64, thorough: bool) {
     ];
     let mut rejects = rejects;
     rejects.extend(undefined_label_programs());
+    // a radix prefix without digits, a lone sign or separator, in every numeric operand position
+    for lit in ["0x", "0b", "0X1", "0B1", "0x_", "0b2", "0xG", "-1", "+1", "1_0", "0x 1"] {
+        for form in ["LD R0, N", "LD R0, (N)", "ST (N), R1", "MOV (N), N", "CMP R0, N", "LDSP N", "LDFR (N)", "DEC N", ".DB N", ".DB 1, N, 3",
+                     ".DW N", ".DW 1, N", ".BYTE N", ".ORG N", ".EQU k N", "*PROGRAMSIZE N", "BITS (N), 1", "BITT R0, N"] {
+            rejects.push(format!("#! mrasm\n {}", form.replace('N', lit)));
+        }
+    }
     for r in &rejects {
         let rm = parse_str(r);
         out.emit(&format!("parse {}", hexs(r)), &rm);
